@@ -138,3 +138,43 @@ Definition conflict_free_x (p : plan) (f : foot) : bool :=
   forallb (fun a => forallb (fun b =>
      negb (Nat.ltb (sid a) (sid b) && negb (mem (sid a) (waits_for p b)) && negb (mem (sid b) (waits_for p a))
            && conflicting_x f (sid a) (sid b))) p) p.
+
+(* ---- in-place calculations (Model/DataPlaneInPlace.v): two unordered steps that are BOTH in place on ONE object are no
+   hazard (each column insertion goes into the shared frame; the final write stores the same handle) ----
+   styles: sid -> the step's calculation was observed to be in place (returned the object it was given / a Series);
+   absent = replacing.  The exempted pair must have the footprint of two calculations on one object. *)
+Definition styles := list (nat * bool).
+Fixpoint style_of (y : styles) (s : nat) : bool :=
+  match y with [] => false | (k, v) :: t => if Nat.eqb k s then v else style_of t s end.
+Definition ip_pair (f : foot) (y : styles) (a b : nat) : bool :=
+  style_of y a && style_of y b &&
+  match foot_of f a, foot_of f b with
+  | Some (wa, ra), Some (wb, rb) => Nat.eqb wa wb && forallb (Nat.eqb wa) ra && forallb (Nat.eqb wb) rb
+  | _, _ => false
+  end.
+Definition unordered (p : plan) (a b : step) : bool :=
+  negb (mem (sid a) (waits_for p b)) && negb (mem (sid b) (waits_for p a)).
+Definition unordered_conflicts_ip (p : plan) (f : foot) (y : styles) : list (nat * nat) :=
+  flat_map (fun a => flat_map (fun b =>
+     if Nat.ltb (sid a) (sid b) && unordered p a b && conflicting f (sid a) (sid b) && negb (ip_pair f y (sid a) (sid b))
+     then [(sid a, sid b)] else []) p) p.
+Definition conflict_free_ip (p : plan) (f : foot) (y : styles) : bool :=
+  match unordered_conflicts_ip p f y with [] => true | _ => false end.
+
+(* column condition of the exempted pairs.  colsig: sid -> (columns written, columns read).
+   Every in-place step writes at least one column, distinct columns, and reads none of them; two unordered in-place steps on one object write
+   different columns and neither reads a column the other writes. *)
+Definition colsig := list (nat * (list nat * list nat)).
+Fixpoint cols_of (c : colsig) (s : nat) : list nat * list nat :=
+  match c with [] => ([], []) | (k, v) :: t => if Nat.eqb k s then v else cols_of t s end.
+Definition ip_disj (a b : list nat) : bool := forallb (fun x => negb (mem x b)) a.
+Fixpoint ip_nodup (l : list nat) : bool := match l with [] => true | x :: t => negb (mem x t) && ip_nodup t end.
+Definition ip_cols_ok (p : plan) (f : foot) (y : styles) (c : colsig) : bool :=
+  forallb (fun a => negb (style_of y (sid a))
+                    || (negb (Nat.eqb (length (fst (cols_of c (sid a)))) 0)
+                        && ip_nodup (fst (cols_of c (sid a))) && ip_disj (snd (cols_of c (sid a))) (fst (cols_of c (sid a))))) p
+  && forallb (fun a => forallb (fun b =>
+       negb (negb (Nat.eqb (sid a) (sid b)) && unordered p a b && ip_pair f y (sid a) (sid b))
+       || (ip_disj (fst (cols_of c (sid a))) (fst (cols_of c (sid b)))
+           && ip_disj (snd (cols_of c (sid a))) (fst (cols_of c (sid b)))
+           && ip_disj (snd (cols_of c (sid b))) (fst (cols_of c (sid a))))) p) p.
